@@ -18,52 +18,53 @@ structure Rel (lo : LexOut) (s : TState) (ts : List Token) : Prop where
   toks : s.queue ++ s.src = ts
   err : s.pendErr = lo.err
   taken : s.tokenErr.isSome → s.src = []
+  sole : s.tokenErr.isSome → s.srcErr = none
   line : s.endLine = lo.endLine
   col : s.endCol = lo.endCol
 
 theorem rel_init (lo : LexOut) : Rel lo (TState.init lo) lo.toks :=
-  ⟨rfl, rfl, by simp [TState.init], rfl, rfl⟩
+  ⟨rfl, rfl, by simp [TState.init], by simp [TState.init], rfl, rfl⟩
 
 theorem pop_cons {lo : LexOut} {s : TState} {t : Token} {r : List Token} (h : Rel lo s (t :: r)) :
     ∃ s', s.pop = (some (.ok t), s') ∧ Rel lo s' r := by
   obtain ⟨q, te, src, se, el, ec⟩ := s
-  obtain ⟨ht, he, hk, hl, hc⟩ := h
-  simp only at ht hk hl hc
+  obtain ⟨ht, he, hk, hso, hl, hc⟩ := h
+  simp only at ht hk hso hl hc
   cases q with
   | cons t' q =>
     simp only [List.cons_append, List.cons.injEq] at ht
     obtain ⟨rfl, rfl⟩ := ht
-    exact ⟨_, rfl, ⟨rfl, he, hk, hl, hc⟩⟩
+    exact ⟨_, rfl, ⟨rfl, he, hk, hso, hl, hc⟩⟩
   | nil =>
     simp only [List.nil_append] at ht
     subst ht
     cases te with
     | some e => simp at hk
-    | none => exact ⟨_, rfl, ⟨rfl, he, by simp, hl, hc⟩⟩
+    | none => exact ⟨_, rfl, ⟨rfl, he, by simp, by simp, hl, hc⟩⟩
 
 theorem peek_cons {lo : LexOut} {s : TState} {t : Token} {r : List Token} (h : Rel lo s (t :: r)) :
     ∃ s', s.peek = (some (.ok t), s') ∧ Rel lo s' (t :: r) := by
   obtain ⟨q, te, src, se, el, ec⟩ := s
-  obtain ⟨ht, he, hk, hl, hc⟩ := h
-  simp only at ht hk hl hc
+  obtain ⟨ht, he, hk, hso, hl, hc⟩ := h
+  simp only at ht hk hso hl hc
   cases q with
   | cons t' q =>
     simp only [List.cons_append, List.cons.injEq] at ht
     obtain ⟨rfl, rfl⟩ := ht
-    exact ⟨_, rfl, ⟨rfl, he, hk, hl, hc⟩⟩
+    exact ⟨_, rfl, ⟨rfl, he, hk, hso, hl, hc⟩⟩
   | nil =>
     simp only [List.nil_append] at ht
     subst ht
     cases te with
     | some e => simp at hk
-    | none => exact ⟨_, rfl, ⟨rfl, he, by simp, hl, hc⟩⟩
+    | none => exact ⟨_, rfl, ⟨rfl, he, by simp, by simp, hl, hc⟩⟩
 
 /-- at the end of the ok tokens, no error: `peek`/`next` give `None` -/
 theorem end_none {lo : LexOut} {s : TState} (h : Rel lo s []) (hn : lo.err = none) :
     (∃ s', s.peek = (none, s') ∧ Rel lo s' []) ∧ (∃ s', s.pop = (none, s') ∧ Rel lo s' []) := by
   obtain ⟨q, te, src, se, el, ec⟩ := s
-  obtain ⟨ht, he, hk, hl, hc⟩ := h
-  simp only at ht hk hl hc
+  obtain ⟨ht, he, hk, hso, hl, hc⟩ := h
+  simp only at ht hk hso hl hc
   obtain ⟨rfl, rfl⟩ := List.append_eq_nil_iff.1 ht
   rw [hn] at he
   cases te with
@@ -71,7 +72,7 @@ theorem end_none {lo : LexOut} {s : TState} (h : Rel lo s []) (hn : lo.err = non
   | none =>
     simp only [TState.pendErr] at he
     subst he
-    exact ⟨⟨_, rfl, ⟨rfl, by rw [hn]; rfl, by simp, hl, hc⟩⟩, ⟨_, rfl, ⟨rfl, by rw [hn]; rfl, by simp, hl, hc⟩⟩⟩
+    exact ⟨⟨_, rfl, ⟨rfl, by rw [hn]; rfl, by simp, by simp, hl, hc⟩⟩, ⟨_, rfl, ⟨rfl, by rw [hn]; rfl, by simp, by simp, hl, hc⟩⟩⟩
 
 /-- at the end of the ok tokens with a tokenizer error: `next` gives it; `peek` gives it, keeps the
 state in relation, and the following `next` gives it (the `unwrap().unwrap_err()` sites) -/
@@ -79,19 +80,19 @@ theorem end_err {lo : LexOut} {s : TState} {e : LexErr} (h : Rel lo s []) (hn : 
     (∃ s', s.pop = (some (.error e), s')) ∧
     (∃ s', s.peek = (some (.error e), s') ∧ Rel lo s' [] ∧ ∃ s'', s'.pop = (some (.error e), s'')) := by
   obtain ⟨q, te, src, se, el, ec⟩ := s
-  obtain ⟨ht, he, hk, hl, hc⟩ := h
-  simp only at ht hk hl hc
+  obtain ⟨ht, he, hk, hso, hl, hc⟩ := h
+  simp only at ht hk hso hl hc
   obtain ⟨rfl, rfl⟩ := List.append_eq_nil_iff.1 ht
   rw [hn] at he
   cases te with
   | some e' =>
     simp only [TState.pendErr, Option.some.injEq] at he
     subst he
-    exact ⟨⟨_, rfl⟩, ⟨_, rfl, ⟨rfl, by rw [hn]; rfl, by simp, hl, hc⟩, _, rfl⟩⟩
+    exact ⟨⟨_, rfl⟩, ⟨_, rfl, ⟨rfl, by rw [hn]; rfl, by simp, hso, hl, hc⟩, _, rfl⟩⟩
   | none =>
     simp only [TState.pendErr] at he
     subst he
-    exact ⟨⟨_, rfl⟩, ⟨_, rfl, ⟨rfl, by rw [hn]; rfl, by simp, hl, hc⟩, _, rfl⟩⟩
+    exact ⟨⟨_, rfl⟩, ⟨_, rfl, ⟨rfl, by rw [hn]; rfl, by simp, by simp, hl, hc⟩, _, rfl⟩⟩
 
 /-- simulation: the state-level result corresponds to the list-level result -/
 def Sim (lo : LexOut) {α : Type} (x : SRes α) (y : Res (α × List Token)) : Prop :=
